@@ -4,6 +4,7 @@ import (
 	"encoding/json"
 	"flag"
 	"fmt"
+	"github.com/teivah/majorana/proc/comp"
 	"math/rand"
 	"os"
 	"path/filepath"
@@ -198,8 +199,14 @@ func oneMain(args []string) {
 	kfid := fs.String("id", "", "")
 	fam := fs.String("family", "", "")
 	expErr := fs.Bool("experr", false, "")
+	dumpSnap := fs.Bool("dump", false, "print the last MSI snapshot")
+	from := fs.String("from", "", "take input and configuration from a replay file")
+	srcOverride := fs.String("src", "", "with -from: replace the program text by this file")
 	fs.Parse(args)
-	b, _ := os.ReadFile("/dev/stdin")
+	var b []byte
+	if *from == "" {
+		b, _ = os.ReadFile("/dev/stdin")
+	}
 	in := caseInput{Src: string(b), Mem: make([]int8, *memsize)}
 	for i := range in.Mem {
 		in.Mem[i] = int8(i*7 + 1)
@@ -212,6 +219,38 @@ func oneMain(args []string) {
 		var x int32
 		fmt.Sscan(p[1], &x)
 		in.Regs[regIdx(p[0])] = x
+	}
+	if *from != "" {
+		rb, err := os.ReadFile(*from)
+		if err != nil {
+			fmt.Println(err)
+			return
+		}
+		var rf finding
+		if json.Unmarshal(rb, &rf) == nil && rf.Input != nil {
+			in = *rf.Input
+			*v, *eu, *wu = rf.Config.V, rf.Config.EU, rf.Config.WU
+			if *srcOverride != "" {
+				sb, _ := os.ReadFile(*srcOverride)
+				in.Src = string(sb)
+			}
+		}
+	}
+	if *dumpSnap {
+		var last comp.VerifMSISnap
+		var lastCycle int
+		o := runMachine(config{V: *v, EU: *eu, WU: *wu}, in.Src, in.Regs, in.Mem, runOpts{Budget: 200000, OnTick: func(m vm, site, cycle int) {
+			if sn, ok := m.(snapper); ok && site == 0 {
+				last = sn.VerifSnapshot()
+				lastCycle = cycle
+			}
+		}})
+		fmt.Println("verdict", o.Verdict, o.Panic, "cycle", lastCycle)
+		for i, c := range last.Cores {
+			fmt.Printf("core %d: states=%v l1=%d lines readBusy=%v writeBusy=%v snoopBusy=%v rlocks=%v locks=%v\n", i, c.States, len(c.L1), c.ReadBusy, c.WriteBusy, c.SnoopBusy, c.RLocks, c.Locks)
+		}
+		fmt.Println("sems", last.Sems, "commands", last.Commands)
+		return
 	}
 	for r := 0; r < *reps; r++ {
 		out := diffCase(in, []config{{V: *v, EU: *eu, WU: *wu}}, diffOpts{Prop: "one", Lockstep: !*expErr, ExpectErr: *expErr})
